@@ -157,14 +157,17 @@ def replay(ex, uni, hist, op=None, observe=True):
     open_cifs = set(it.loopref[0] for it in getattr(m, 'I', {}).values())
     for ci in sorted(m.cifs):
         # while an iterator is open the public API cannot iterate (its transaction is in progress): raw tables only
-        obs_lines += ['rawdump C%d' % ci if ci in open_cifs else 'dump C%d' % ci, 'rawdump C%d' % ci]
+        obs_lines += ['rawdump C%d' % ci if ci in open_cifs else 'dump C%d' % ci, 'rawdump C%d' % ci, 'autocommit C%d' % ci]
     obs = ex.run(obs_lines)
     key = []
     for j, ci in enumerate(sorted(m.cifs)):
-        d, raw = obs[2 * j], obs[2 * j + 1]
+        d, raw, ac = obs[3 * j], obs[3 * j + 1], obs[3 * j + 2]
         if not isinstance(d, dict) or not isinstance(raw, dict):
             problems.append(('dump', 'dump failed: %r' % (d,)))
             continue
+        # a transaction is open on the CIF exactly while one of its packet iterators is alive
+        if isinstance(ac, dict) and ac.get('autocommit') != (0 if ci in open_cifs else 1):
+            problems.append(('transaction', 'C%d: %s' % (ci, 'the transaction of the open packet iterator is gone' if ci in open_cifs else 'a transaction is left open although no packet iterator is alive')))
         if ci not in open_cifs:
             got = canon_cif_dump(d)
             exp = canon_cif_model(m.cifs[ci])
